@@ -356,6 +356,43 @@ func c08Gen(c *Ctx) {
 		t.C.Count("cbc-unpad-last", fmt.Sprint(v))
 		t.Try("cbc-decrypt-unpad-scope", c08Case(2, int64(doff), int64(len(ct)), int64(soff), int64(len(ct)), 0, mem, key, iv, nil), true)
 	})
+	// D2. two (or three) wrong bytes in the last block: every pair of positions for paddings of 2..16 bytes, the two bytes changed
+	//     by the SAME xor difference, by different ones, or swapped to each other's value (comparisons done on words and
+	//     folded with xor / or, sums, or a running mask can cancel pairs that no single wrong byte shows)
+	var pairs [][3]int
+	for n := 2; n <= 16; n++ {
+		for a := 16 - n; a < 15; a++ {
+			for b := a + 1; b < 15; b++ {
+				pairs = append(pairs, [3]int{n, a, b})
+			}
+		}
+	}
+	c.Each(len(pairs)*3, func(i int, t *T) {
+		pr := pairs[i%len(pairs)]
+		mode := i / len(pairs)
+		nblocks := 1 + t.R.Intn(2)
+		p := rbytes(t, 16*nblocks)
+		last := p[len(p)-16:]
+		for j := 16 - pr[0]; j < 16; j++ {
+			last[j] = byte(pr[0])
+		}
+		d := byte(1 + t.R.Intn(255))
+		switch mode {
+		case 0:
+			last[pr[1]] ^= d
+			last[pr[2]] ^= d
+		case 1:
+			last[pr[1]] ^= d
+			last[pr[2]] ^= byte(1 + t.R.Intn(255))
+		default:
+			last[pr[1]] += d
+			last[pr[2]] -= d
+		}
+		key, iv := rbytes(t, c08KeySizes[i%3]), rbytes(t, 16)
+		ct := stdCBC(key, iv, p, true)
+		mem, doff, soff := c08Layout(t, t.R.Intn(3), len(ct), ct)
+		t.Try("cbc-decrypt-unpad-two-wrong-bytes", c08Case(2, int64(doff), int64(len(ct)), int64(soff), int64(len(ct)), 0, mem, key, iv, nil), true)
+	})
 	// E. misuse and error paths of the CBC pair
 	badKeys := []int{0, 1, 15, 17, 23, 25, 31, 33, 48, 64}
 	c.Each(c.N(600, 6000), func(i int, t *T) {
